@@ -212,7 +212,10 @@ class BuilderSim:
         mission = self.make_mission(m)
         pm = self.pms[m.get('pm', 0) % len(self.pms)]
         try:
-            traj = builder.fly(pm, mission)
+            if 'mass' in m:
+                traj = builder.fly(pm, mission, starting_mass=m['mass'])
+            else:
+                traj = builder.fly(pm, mission)
         except Sentinel as e:
             out = ('exc', 'Sentinel', e)
         except Exception as e:  # noqa: BLE001
@@ -280,9 +283,15 @@ class BuilderSim:
         plan = op.get('fault')
         kind = op['kind']
         prev = self.last_outcome.get(bid, 'none')
-        out, p = self.fly_once(builder, m, plan)
-        fresh = self.make_builder(opts)
-        out2, p2 = self.fly_once(fresh, m, plan)
+        if op.get('fresh_first'):
+            fresh = self.make_builder(opts)
+            out2, p2 = self.fly_once(fresh, m, plan)
+            del fresh
+            out, p = self.fly_once(builder, m, plan)
+        else:
+            out, p = self.fly_once(builder, m, plan)
+            fresh = self.make_builder(opts)
+            out2, p2 = self.fly_once(fresh, m, plan)
         feat = dict(kind=kind, previous_outcome=prev, fault_site=(plan or {}).get('site'),
                     iterate_mass=opts['iterate_mass'], use_weather=opts['use_weather'])
         self.states.add(f'{kind}|prev:{prev}|{out[0]}|w{int(opts["use_weather"])}|i{int(opts["iterate_mass"])}')
@@ -367,7 +376,7 @@ def draw_opts(rng):
         # weather interpolation costs ~15 ms per point: keep weather builders cheap otherwise
         'iterate_mass': (not use_weather) and rng.random() < 0.4,
         'use_weather': use_weather,
-        'max_mass_iters': rng.randint(1, 6),
+        'max_mass_iters': rng.choice([1, 2, 3, 4, 5, 6, 6, 0, 5.0, 3.0]),
         'reltol': rng.choice([1e-1, 3e-2, 1e-2, 1e-3, 1e-4]),
         'frac': 0.02 if use_weather else rng.choice([0.02, 0.02, 0.01]),
         # lower heating value of the fuel: low-energy fuels make the first-pass trip-fuel
@@ -408,7 +417,7 @@ def gen_op(rng, cfg, bid, opts):
     if r < cfg['p_valid']:
         pass
     elif r < cfg['p_valid'] + cfg['p_natural']:
-        kinds = [k_ for k_ in NATURAL_KINDS if k_ != 'missing_weather'] + ['same_airport']
+        kinds = [k_ for k_ in NATURAL_KINDS if k_ != 'missing_weather'] + ['same_airport', 'explicit_mass']
         if use_w:
             kinds += ['missing_weather', 'missing_weather', 'outside_weather']
         kind = rng.choice(kinds)
@@ -428,6 +437,10 @@ def gen_op(rng, cfg, bid, opts):
             m['dep'] = '2024-09-0%dT12:00:00' % rng.randint(2, 9)
         elif kind == 'same_airport':
             m['d'] = m['o']
+        elif kind == 'explicit_mass':
+            # the documented starting_mass argument (differential only: whatever happens must not
+            # depend on what the builder flew before)
+            m['mass'] = float(rng.randint(55000, 75000))
         elif kind == 'outside_weather':
             m['o'], m['d'] = 'BOS', rng.choice(['LAX', 'SFO', 'MIA', 'DEN'])
     else:
@@ -442,6 +455,11 @@ def gen_op(rng, cfg, bid, opts):
     op = {'op': 'fly', 'builder': bid, 'opts': opts, 'mission': m, 'kind': kind}
     if fault:
         op['fault'] = fault
+    if rng.random() < 0.5:
+        # the reference flight on the brand-new builder happens first: the mission objects the used
+        # builder sees are then short-lived temporaries created one after the other (the streaming
+        # pattern), not objects interleaved with the reference flight's
+        op['fresh_first'] = True
     return op
 
 
